@@ -137,6 +137,12 @@ static void pgp_seeds() {
     B sig_rsa = sig(4, 0x13, 1, mpis({big(1020, 20)})), sig_dsa = sig(4, 0x00, 17, mpis({big(159, 21), big(158, 22)})), sig_ed = sig(4, 0x18, 22, mpis({big(255, 23), big(254, 24)})), sig_v5 = sig(5, 0x01, 19, mpis({big(255, 25), big(254, 26)}));
     B emb = subpacket(32, false, B(sig_rsa.begin() + 3, sig_rsa.end())); B hashed2 = hashed; put(hashed2, emb); B sig_emb = packet(2, sig4_body(sig4_hashed_part(4, 0x18, 1, 10, hashed2), unhashed, left, mpis({big(1019, 27)})));
     B sig_v3 = packet(2, sig3_body(0x00, 1790000000, keyid, 17, 2, left, mpis({big(159, 28), big(157, 29)})));
+    // minimal variants (creation time and issuer only) next to the rich ones: the parsers refuse some subpacket combinations as a whole
+    B hmin; put(hmin, subpacket(2, false, time_body(1790000000))); put(hmin, subpacket(33, false, cat(B{4}, B(20, 0x11))));
+    auto sigmin = [&](unsigned type, unsigned pk, unsigned hash, const B &m) { return packet(2, sig4_body(sig4_hashed_part(4, type, pk, hash, hmin), unhashed, left, m)); };
+    B smin_rsa = sigmin(0x00, 1, 8, mpis({big(1020, 40)})), smin_dsa = sigmin(0x01, 17, 8, mpis({big(159, 41), big(158, 42)})), smin_ed = sigmin(0x10, 22, 10, mpis({big(255, 43), big(254, 44)})), smin_ecdsa = sigmin(0x13, 19, 9, mpis({big(255, 45), big(254, 46)}));
+    for (const B &x : {smin_rsa, smin_dsa, smin_ed, smin_ecdsa}) { add_seed(T_SIGNATURE, S(x)); add_seed(T_PACKETS, S(x)); }
+    add_seed(T_SIGNATURES, S(cat(smin_rsa, smin_dsa))); add_seed(T_SIGNATURES, S(smin_ed));
     for (const B &x : {sig_rsa, sig_dsa, sig_ed, sig_v5, sig_emb, sig_v3}) { add_seed(T_SIGNATURE, S(x)); add_seed(T_PACKETS, S(x)); }
     add_seed(T_SIGNATURES, S(cat(cat(sig_rsa, sig_dsa), sig_ed)));
     { std::string arm; tmcg_openpgp_octets_t o(sig_dsa.begin(), sig_dsa.end()); PGP::ArmorEncode(TMCG_OPENPGP_ARMOR_SIGNATURE, o, arm); add_seed(T_ARMOR, arm); add_seed(T_SIGNATURE, arm); }
@@ -170,6 +176,9 @@ static inline void gate(int t) { W->gate[t]++; }
 
 static void run_target(int t, const std::string &in) {
   BarnettSmartVTMF_dlog *vv = W->vv; std::stringstream sink;
+  // the OpenPGP block parsers have an ASCII-armor and a binary entry point: armored text goes to the former, everything else to the latter
+  // (a mutated armor hardly ever keeps its checksum, so the armor entry point alone would stop most inputs before any packet is parsed)
+  bool armored = in.compare(0, 5, "-----") == 0; tmcg_openpgp_octets_t oct; if (!armored && t >= T_ARMOR && t <= T_RADIX64) oct.assign(in.begin(), in.end());
   switch (t) {
     case T_CARD: guarded([&] { TMCG_Card c; if (c.import(in)) { gate(t); std::ostringstream o; o << c; } }); break;
     case T_CARDSECRET: guarded([&] { TMCG_CardSecret c; if (c.import(in)) { gate(t); std::ostringstream o; o << c; } }); break;
@@ -213,12 +222,12 @@ static void run_target(int t, const std::string &in) {
     case T_RADIX64: guarded([&] { tmcg_openpgp_octets_t out; PGP::Radix64Decode(in, out); std::string back; PGP::Radix64Encode(out, back, true); gate(t); }); break;
     case T_PACKETS: guarded([&] { tmcg_openpgp_octets_t pkts(in.begin(), in.end()); for (int i = 0; i < 16 && !pkts.empty(); i++) { tmcg_openpgp_packet_ctx_t ctx; tmcg_openpgp_octets_t cur; tmcg_openpgp_notations_t nt; tmcg_openpgp_multiple_octets_t es, rf;
           tmcg_openpgp_byte_t r = PGP::PacketDecode(pkts, 0, ctx, cur, nt, es, rf); PGP::PacketContextRelease(ctx); if (r == 0) break; if (r != 0xFE && r != 0xFD && r != 0xFA && r != 0xFB && r != 0xFC) gate(t); } }); break;
-    case T_PUBKEYBLOCK: guarded([&] { TMCG_OpenPGP_Pubkey *pub = NULL; if (PGP::PublicKeyBlockParse(in, 0, pub)) { gate(t); pub->CheckSelfSignatures(NULL, 0); delete pub; } }); break; // the parser frees its out-pointer on failure
-    case T_SIGNATURE: guarded([&] { TMCG_OpenPGP_Signature *sig = NULL; if (PGP::SignatureParse(in, 0, sig)) { gate(t); sig->CheckValidity(1790000000, 0); delete sig; } }); break;
-    case T_SIGNATURES: guarded([&] { TMCG_OpenPGP_Signatures sigs; if (PGP::SignaturesParse(in, 0, sigs)) gate(t); for (size_t i = 0; i < sigs.size(); i++) delete sigs[i]; }); break;
-    case T_KEYRING: guarded([&] { TMCG_OpenPGP_Keyring *ring = NULL; if (PGP::PublicKeyringParse(in, 0, ring)) { gate(t); delete ring; } }); break;
-    case T_PRVKEYBLOCK: guarded([&] { TMCG_OpenPGP_Prvkey *prv = NULL; tmcg_openpgp_secure_string_t pw; pw += 'p'; pw += 'w'; if (PGP::PrivateKeyBlockParse(in, 0, pw, prv)) { gate(t); delete prv; } }); break;
-    case T_MESSAGE: guarded([&] { TMCG_OpenPGP_Message *msg = NULL; if (PGP::MessageParse(in, 0, msg)) { gate(t); tmcg_openpgp_secure_octets_t key; for (int i = 0; i < 33; i++) key.push_back(i == 0 ? 9 : 1); tmcg_openpgp_octets_t out; msg->Decrypt(key, 0, out); delete msg; } }); break;
+    case T_PUBKEYBLOCK: guarded([&] { TMCG_OpenPGP_Pubkey *pub = NULL; if (armored ? PGP::PublicKeyBlockParse(in, 0, pub) : PGP::PublicKeyBlockParse(oct, 0, pub)) { gate(t); pub->CheckSelfSignatures(NULL, 0); delete pub; } }); break; // the parser frees its out-pointer on failure
+    case T_SIGNATURE: guarded([&] { TMCG_OpenPGP_Signature *sig = NULL; if (armored ? PGP::SignatureParse(in, 0, sig) : PGP::SignatureParse(oct, 0, sig)) { gate(t); sig->CheckValidity(1790000000, 0); delete sig; } }); break;
+    case T_SIGNATURES: guarded([&] { TMCG_OpenPGP_Signatures sigs; if (armored ? PGP::SignaturesParse(in, 0, sigs) : PGP::SignaturesParse(oct, 0, sigs)) gate(t); for (size_t i = 0; i < sigs.size(); i++) delete sigs[i]; }); break;
+    case T_KEYRING: guarded([&] { TMCG_OpenPGP_Keyring *ring = NULL; if (armored ? PGP::PublicKeyringParse(in, 0, ring) : PGP::PublicKeyringParse(oct, 0, ring)) { gate(t); delete ring; } }); break;
+    case T_PRVKEYBLOCK: guarded([&] { TMCG_OpenPGP_Prvkey *prv = NULL; tmcg_openpgp_secure_string_t pw; pw += 'p'; pw += 'w'; if (armored ? PGP::PrivateKeyBlockParse(in, 0, pw, prv) : PGP::PrivateKeyBlockParse(oct, 0, pw, prv)) { gate(t); delete prv; } }); break;
+    case T_MESSAGE: guarded([&] { TMCG_OpenPGP_Message *msg = NULL; if (armored ? PGP::MessageParse(in, 0, msg) : PGP::MessageParse(oct, 0, msg)) { gate(t); tmcg_openpgp_secure_octets_t key; for (int i = 0; i < 33; i++) key.push_back(i == 0 ? 9 : 1); tmcg_openpgp_octets_t out; msg->Decrypt(key, 0, out); delete msg; } }); break;
     case T_STREAM_OPS: guarded([&] { if (in.empty()) return; int k = (unsigned char)in[0] % 4; std::istringstream is(in.substr(1));
         if (k == 0) { VTMF_Card c; is >> c; if (is.good()) gate(t); } else if (k == 1) { TMCG_Card c; is >> c; if (is.good()) gate(t); } else if (k == 2) { TMCG_Stack<VTMF_Card> s; is >> s; if (is.good()) gate(t); } else { TMCG_StackSecret<VTMF_CardSecret> s; is >> s; if (is.good()) gate(t); } }); break;
     default: break;
